@@ -758,9 +758,27 @@ def bound_handles(ctx: Ctx) -> None:
     d2 = LookbackOption(HestonStock(dt=0.125, dtype=torch.float32), maturity=1.0, strike=1.1); d2.simulate(n_paths=4)
     names = ["moneyness", "log_moneyness", "max_moneyness", "max_log_moneyness", "time_to_maturity", "expiry_time", "volatility", "variance", "underlier_spot",
              "zeros", Barrier(1.05), UnderlierLogSpot()]           # ("empty" is documented as uninitialised memory: no value to compare)
-    for f in names + [FeatureList(["moneyness", "time_to_maturity"])]:
+    from pfhedge.features import ModuleOutput
+    torch.manual_seed(4)
+    mo = ModuleOutput(torch.nn.Linear(2, 1), ["moneyness", "time_to_maturity"])          # float32 weights: read on the float64 and the float32 market
+    for f in names + [FeatureList(["moneyness", "time_to_maturity"]), mo]:
         label = f if isinstance(f, str) else type(f).__name__
         try:
+            if isinstance(f, ModuleOutput):
+                h1 = f.of(d2)
+                v1 = h1.get(None).clone()
+                d3 = LookbackOption(HestonStock(dt=0.125, dtype=torch.float32), maturity=0.5, strike=0.9); d3.simulate(n_paths=2)
+                h2 = f.of(d3)
+                v2 = h2.get(None).clone()
+                again1 = h1.get(None)
+                fresh2 = ModuleOutput(f.module, ["moneyness", "time_to_maturity"]).of(d3).get(None)
+                ctx.count(n=2)
+                if again1.shape != v1.shape or not torch.equal(again1, v1):
+                    ctx.violation("handles:rebound", "the handle ModuleOutput.of(d1) reads another derivative after the same feature object was bound to d2",
+                                  {"feature": label, "shape_before": list(v1.shape), "shape_after": list(again1.shape)})
+                elif not torch.equal(v2, fresh2):
+                    ctx.violation("handles:second", "ModuleOutput.of(d2) obtained from a feature object that had been bound to d1 differs from a fresh feature bound to d2", {"feature": label})
+                continue
             base = get_feature(f) if not isinstance(f, FeatureList) else f
             h1 = base.of(d1)
             v1 = h1.get(None).clone()
